@@ -339,6 +339,9 @@ fn run_init(
         ..Default::default()
     };
 
+    // Refuse invalid settings before the configuration file is touched
+    config.validate()?;
+
     // Determine file format and save
     if is_tauri_config {
         // For tauri.conf.json, require it to exist
